@@ -435,7 +435,14 @@ class CGenerator:
         return s
 
     def _generate_struct_union_body(self, members: List[c_ast.Node]) -> str:
-        return "".join(self._generate_stmt(decl) for decl in members)
+        s = ""
+        for decl in members:
+            s += self._generate_stmt(decl)
+            if isinstance(decl, c_ast.StaticAssert):
+                # Unlike in a block, the ';' of a static assertion is not kept
+                # as an empty statement in a member list.
+                s = s[:-1] + ";\n"
+        return s
 
     def _generate_enum_body(self, members: List[c_ast.Enumerator]) -> str:
         # `[:-2] + '\n'` removes the final `,` from the enumerator list
